@@ -1545,11 +1545,28 @@ class Folder:
             return tgt(*args)
         raise AnalysisError("constfold: value is not callable")
 
-    def call_function(self, fn, args, kw=None, self_value=None):
+    def call_function(self, fn, args, kw=None, self_value=None, _raw=False):
         kw = kw or {}
         stub = getattr(self, "stubs", {}).get(fn.key)
         if stub is not None:
             return stub(*args, **kw)
+        if fn.node.decorator_list and not _raw:
+            # functools.lru_cache / functools.cache: one result object per argument tuple for the life of the session
+            memo = None
+            for d_ in fn.node.decorator_list:
+                b_ = self.index.resolve_expr(fn.module, d_.func if isinstance(d_, ast.Call) else d_)
+                if b_ is not None and b_.kind == "external" and b_.target in ("functools.lru_cache", "functools.cache"):
+                    memo = self.__dict__.setdefault("_memo_results", {})
+            if memo is not None:
+                try:
+                    key_ = (fn.key, id(self_value) if self_value is not None else None, tuple(args), tuple(sorted(kw.items())))
+                    hash(key_)
+                except TypeError:
+                    key_ = None
+                if key_ is not None:
+                    if key_ not in memo:
+                        memo[key_] = self.call_function(fn, args, kw, self_value, _raw=True)
+                    return memo[key_]
         local = {}
         params = list(fn.params)
         if fn.cls is not None and fn.kind in ("method", "property", "setter"):
